@@ -2,6 +2,52 @@
 header is exactly the view's serialisation, or absent when the view is empty."""
 
 
+class _FakeView:
+    """native realiser of the HeaderView model: an object with the emptiness and the serialisation of the model"""
+
+    def __init__(self, nonempty, text):
+        self.nonempty, self.text = nonempty, text
+
+    def __bool__(self):
+        return self.nonempty
+
+    def to_header(self):
+        return self.text
+
+
+def _mk_replay(view_attr, argname, prop_name=None):
+    def replay(reg, c, inputs):
+        from pyvc import runtime
+        sr = runtime.import_real("werkzeug/sansio/response.py")
+        ds = runtime.import_real("werkzeug/datastructures/__init__.py")
+        clo = inputs.get("self") or {}
+        pairs = [tuple(x["__tuple__"]) if isinstance(x, dict) else tuple(x) for x in clo.get("headers", {}).get("_list", [])]
+        arg = inputs.get(argname) or {}
+        nc = runtime.NativeContract(reg, c)
+        # the model's own headers, then a few header lists around them (bounded native search)
+        name = inputs.get("name", prop_name)
+        variants = [pairs, [], [(name or "X", "old")] if name else [], pairs + pairs]
+        for hl in variants:
+            r = sr.Response()
+            r.headers = ds.Headers()
+            r.headers._list = list(hl)
+            if view_attr == "__set_property__":
+                prop = sr._set_property(name)
+                view = prop.fget(r)
+            else:
+                view = getattr(r, view_attr)
+            closure = view.on_update
+            fv = _FakeView(bool(arg.get("nonempty")), arg.get("text", ""))
+            names = {"self": r, argname: fv}
+            if name is not None:
+                names["name"] = name
+            fails = nc.check_call(closure, [fv], {}, names)
+            if fails:
+                return [f"(headers {hl!r}) " + f for f in fails]
+        return []
+    return replay
+
+
 def register(reg):
     P = "C16"
     H = reg.models["Headers"]
@@ -25,7 +71,8 @@ def register(reg):
             # `del self.headers[name]` without a presence test: Headers.__delitem__ tolerates an absent key
             pass
         reg.contract(key, prop=P, params={argname: V}, closure={"self": R}, modifies=["self.headers._list"],
-                     raise_modifies=[], requires=["I_h(self.headers)"], ensures=ens, raises=raises)
+                     raise_modifies=[], requires=["I_h(self.headers)"], ensures=ens, raises=raises,
+                     replay=_mk_replay(key.split(":")[1].split(".")[1], argname, hname))
 
     view_closure("werkzeug/sansio/response.py:Response.cache_control.on_update", "cache_control", "Cache-Control", True)
     view_closure("werkzeug/sansio/response.py:Response.content_range.on_update", "rng", "Content-Range", False)
@@ -37,6 +84,7 @@ def register(reg):
     reg.contract(
         "werkzeug/sansio/response.py:_set_property.fget.on_update", prop=P, params={"header_set": V},
         closure={"self": R, "name": "str"}, modifies=["self.headers._list"], raise_modifies=[],
+        replay=_mk_replay("__set_property__", "header_set"),
         requires=["I_h(self.headers)"],
         ensures=["I_h(self.headers)",
                  "implies(not header_set.nonempty, not has_key(self.headers, name))",
